@@ -1309,7 +1309,15 @@ fn rebuild_value(
         .unwrap_or(false)
         && !has_newline
     {
-        // Just copy tokens if the value fits into one line
+        // Just copy tokens if the value fits into one line, after exactly one space
+        builder.token(WHITESPACE.into(), " ");
+        while let Some((k, _t)) = tokens.first() {
+            if *k == WHITESPACE {
+                tokens.remove(0);
+            } else {
+                break;
+            }
+        }
         for (k, t) in tokens {
             builder.token(k.into(), &t);
         }
